@@ -10,6 +10,7 @@ TRANSLATORS = [
     ("MemoFacts.lean", ["memofacts"]),
     ("LockFacts.lean", ["lockfacts"]),
     ("HookFacts.lean", ["hookfacts"]),
+    ("ParFacts.lean", ["parfacts"]),
 ]
 
 
